@@ -121,7 +121,14 @@ def _immutable(a: list[int], k: int, v: int) -> bool:
         s.n_modes = v
     except StateError:
         n += 1
-    return n == 3 and s.s == a
+    # augmented assignment rebinds the name to a new State; the object itself (seen through another
+    # reference, e.g. a dictionary key) keeps its occupations and its hash
+    alias = s
+    h = str(alias)
+    d = {alias: 1}
+    t = s
+    t += State([v])
+    return n == 3 and s.s == a and alias.s == a and str(alias) == h and len(alias) == len(a) and t.s == a + [v] and State(list(a)) in d
 
 
 def _shape(shape, ls):
